@@ -54,7 +54,7 @@ class UndirectedWeightedGraph : private LabeledUndirectedGraph<EdgeWeight> {
      */
     template <template <class...> class Container, class... Args>
     explicit UndirectedWeightedGraph(
-        const Container<LabeledEdge<EdgeMultiplicity>, Args...> &multiedgeList
+        const Container<LabeledEdge<EdgeWeight>, Args...> &multiedgeList
     )
         : BaseClass(0) {
 
@@ -63,7 +63,7 @@ class UndirectedWeightedGraph : private LabeledUndirectedGraph<EdgeWeight> {
             maxIndex = std::max(std::get<0>(multiedge), std::get<1>(multiedge));
             if (maxIndex >= getSize())
                 resize(maxIndex + 1);
-            addMultiedge(
+            addEdge(
                 std::get<0>(multiedge), std::get<1>(multiedge),
                 std::get<2>(multiedge)
             );
